@@ -44,7 +44,8 @@ Inductive opk :=
   | OFilter | OTransform | ONorm | OPa | ORankdata | ORemoveEmpty | OUpdateIds      (* have an inplace flag *)
   | OSort | OSortOrder | OTranspose | OCopy | OHead | OSubsample | OPartition | OCollapse
   | OMerge | OConcat | OAlignTo                                                      (* documented to return a new table *)
-  | OAddMetadata | ODelMetadata.                                                     (* mutators (always in place) *)
+  | OAddMetadata | ODelMetadata                                                      (* mutators (always in place) *)
+  | OToDataframe.                                                                     (* an export: the pandas frame plays the result *)
 Inductive ax3 := XObs | XSamp | XWhole.
 Inductive mdk := MdNone | MdFlat | MdNested.   (* metadata of an axis: absent / only immutable values / with nested lists *)
 
@@ -236,6 +237,11 @@ Definition eff (o : opk) (lk : lay) (fl : flags) : list effect :=
        | XWhole => (if present mo then [Write (Recv, DictO)] else []) ++ (if present ms then [Write (Recv, DictS)] else [])
        | _ => if present (mdk_of a mo ms) then [Write (Recv, DictC a)] else []
        end) ++ share_all Res Recv (all_comps_of mo ms)
+  | OToDataframe =>
+      (* to_dataframe: dense -> matrix_data.toarray(), sparse -> matrix_data.copy() handed to pandas: the
+         value buffers of the frame (its "matrix") are new whatever layout the table is in; ids become
+         pandas indexes (new objects); metadata is not exported *)
+      [Fresh (Res, M); Fresh (Res, IdO); Fresh (Res, IdS)]
   end.
 
 (* ---- meaning of a signature ---- *)
@@ -280,7 +286,7 @@ Definition all_ax3 : list ax3 := [XObs; XSamp; XWhole].
 Definition all_mdk : list mdk := [MdNone; MdFlat; MdNested].
 Definition all_op : list opk :=
   [OFilter; OTransform; ONorm; OPa; ORankdata; ORemoveEmpty; OUpdateIds; OSort; OSortOrder; OTranspose; OCopy; OHead;
-   OSubsample; OPartition; OCollapse; OMerge; OConcat; OAlignTo; OAddMetadata; ODelMetadata].
+   OSubsample; OPartition; OCollapse; OMerge; OConcat; OAlignTo; OAddMetadata; ODelMetadata; OToDataframe].
 Definition all_flags : list flags :=
   flat_map (fun i => flat_map (fun x => flat_map (fun mo => flat_map (fun ms => flat_map (fun amo => flat_map (fun ams =>
   flat_map (fun v => flat_map (fun bo => map (fun bs => mkF i x mo ms amo ams v bo bs) all_bool) all_bool) all_bool)
